@@ -207,7 +207,36 @@ Qed.
 Theorem clog2_guard N : N <= 0 -> h_clog2 N = Err EAssert.
 Proof. intros; unfold h_clog2. destruct (0 <? N) eqn:E; [lia|reflexivity]. Qed.
 
-(* the function generated from helpers.clog2 on this run = the model the theorems above are about *)
-From PV Require Import Gen.HelpersGen.
+(* the functions generated from helpers.py on this run = the model the theorems above are about *)
+From PV Require Import Gen.BitsGen Gen.HelpersGen Bits.BitsProofs.
 Theorem gen_clog2_ok N : gen_clog2 N = h_clog2 N.
 Proof. unfold gen_clog2, h_clog2. rewrite Z.gtb_ltb. reflexivity. Qed.
+
+Definition wspec_w (s : wspec) : Z := match s with WInt w | WType w => w end.
+Definition wspec_ty (s : wspec) : bool := match s with WInt _ => false | WType _ => true end.
+
+Theorem gen_trunc_ok n u s : gen_trunc n u s = h_trunc n u (wspec_w s) (wspec_ty s).
+Proof.
+  destruct s as [w|w]; unfold gen_trunc, h_trunc; cbn [wspec_w wspec_ty negb andb]; rewrite ?init_ok by exact I; [|reflexivity].
+  destruct (w <=? n); reflexivity.
+Qed.
+Theorem gen_zext_ok n u s : gen_zext n u s = h_zext n u (wspec_w s) (wspec_ty s).
+Proof.
+  destruct s as [w|w]; unfold gen_zext, h_zext; cbn [wspec_w wspec_ty negb andb]; rewrite ?init_ok by exact I; [|reflexivity].
+  rewrite Z.geb_leb. destruct (n <=? w); reflexivity.
+Qed.
+Theorem gen_sext_ok n u s : wfn n -> inrange n u -> gen_sext n u s = h_sext n u (wspec_w s) (wspec_ty s).
+Proof.
+  intros Hn Hu. destruct s as [w|w]; unfold gen_sext, h_sext; cbn [wspec_w wspec_ty negb andb];
+    rewrite (sint_ok n u 0 Hn Hu); cbn [bind snd]; rewrite ?init_ok by exact I; [|reflexivity].
+  rewrite Z.geb_leb. destruct (n <=? w); reflexivity.
+Qed.
+Theorem gen_reduce_and_ok n u : 0 <= n -> gen_reduce_and n u = Ok (h_reduce_and n u).
+Proof.
+  intros Hn. unfold gen_reduce_and, h_reduce_and. destruct (n <? 0) eqn:E; [lia|].
+  rewrite init_ok by exact I. destruct (u =? Z.shiftl 1 n - 1); reflexivity.
+Qed.
+Theorem gen_reduce_or_ok n u : gen_reduce_or n u = Ok (h_reduce_or n u).
+Proof.
+  unfold gen_reduce_or, h_reduce_or. rewrite init_ok by exact I. destruct (u =? 0); reflexivity.
+Qed.
